@@ -379,7 +379,7 @@ def gen_spec(r, repo, size=None):
         goals = []
         for _ in range(r.choice([1, 1, 2, 3])):
             a = r.choice([0, 1, 5, 10 ** 6])
-            g = {"time": [a, a + r.choice([1, 1, 10, 10 ** 9])], "pos": None, "lanelets": [], "ori": None, "vel": None}
+            g = {"time": [a, a + r.choice([0 if a > 0 else 1, 1, 1, 10, 10 ** 9])], "pos": None, "lanelets": [], "ori": None, "vel": None}
             x = r.random()
             if x < 0.35:
                 k = r.choice(["rect", "circ", "poly"])
